@@ -61,165 +61,8 @@ func runC10(c *Checker) {
 		c.analysed[f.String()] = true
 	}
 
-	// ---- provenance of open-list elements
-	for _, fn := range []*ssa.Function{proc, cls, opn} {
-		for _, st := range fieldStores(fn, "open") {
-			v := sx(st.Val)
-			ok := false
-			switch {
-			case strings.HasPrefix(v, "append(*&$s.open,"):
-				// append(s.open, desc): the element is the processed descriptor
-				ok = appendedIs(st.Val, "$desc")
-			case strings.HasPrefix(v, "*&$s.open["):
-				ok = true // re-slice of the list itself: no new element
-			}
-			c.check("C10.provenance", shortFn(fn), "store to open: "+v, ok, "the open list receives something other than the processed descriptor or a re-slice of itself")
-		}
-	}
-	// closed lists: every append to `closed` adds an element loaded from s.open
-	for _, fn := range []*ssa.Function{proc, cls} {
-		n := 0
-		for _, ci := range allCalls(fn) {
-			if calleeName(ci) != "builtin:append" {
-				continue
-			}
-			args := ci.Common().Args
-			if !strings.Contains(sx(args[0]), "closed") && sx(args[0]) != "nil" {
-				continue
-			}
-			if strings.Contains(sx(args[0]), "$s.") {
-				continue
-			}
-			el := appendedElem(args[1])
-			if el == nil {
-				continue
-			}
-			n++
-			esx := sx(el)
-			fromOpen := strings.HasPrefix(esx, "*&*&$s.open[")
-			c.check("C10.provenance", shortFn(fn), "closed += "+esx, fromOpen, "an element that was not loaded from the open list is reported closed")
-			// guarded by CanClose / Equal on that element
-			guard := false
-			for b := ci.Block(); b != nil && b.Idom() != nil; b = b.Idom() {
-				id := b.Idom()
-				if ifi, ok := id.Instrs[len(id.Instrs)-1].(*ssa.If); ok && id.Succs[0] == b && len(b.Preds) == 1 {
-					cs := sx(ifi.Cond)
-					if (strings.Contains(cs, ".CanClose(") || strings.Contains(cs, ".Equal(")) && strings.Contains(cs, "$desc") && strings.Contains(cs, esx) {
-						guard = true
-					}
-				}
-			}
-			c.check("C10.provenance", shortFn(fn), "closed += "+esx+" only under desc.CanClose/Equal(element)", guard, "element appended without the closing test on it")
-		}
-		c.floorCheck("C10.provenance closed-appends in "+shortFn(fn), n, 1)
-	}
-	// Open() returns a fresh slice
-	{
-		fresh := true
-		for _, b := range opn.Blocks {
-			if r, ok := b.Instrs[len(b.Instrs)-1].(*ssa.Return); ok {
-				v := sx(r.Results[0])
-				if !strings.Contains(v, "make[") || strings.Contains(v, "*&$s.open[") {
-					fresh = false
-				}
-			}
-		}
-		okCopy := false
-		for _, ci := range allCalls(opn) {
-			if calleeName(ci) == "builtin:copy" && strings.HasPrefix(sx(ci.Common().Args[0]), "make[") && sx(ci.Common().Args[1]) == "*&$s.open" {
-				okCopy = true
-			}
-		}
-		c.check("C10.provenance", shortFn(opn), "returns a freshly allocated copy of the open list", fresh && okCopy, "Open() exposes the tracker's own slice")
-	}
-
-	// ---- order and removal
-	c.checkCloseLoop(proc, true)
-	c.checkCloseLoop(cls, false)
-	{
-		// truncation by exactly len(closed): high bound == len(open) − len(closed) as affine forms
-		ok := false
-		bfp := newBounds(c.P).of(proc)
-		for _, st := range fieldStores(proc, "open") {
-			sl, isSlice := st.Val.(*ssa.Slice)
-			if !isSlice || sl.High == nil || !strings.HasPrefix(sx(sl.X), "*&$s.open") {
-				continue
-			}
-			if sl.Low != nil {
-				if lo := bfp.affOf(sl.Low); !(lo.isConst() && lo.k == 0) {
-					continue
-				}
-			}
-			d := bfp.lenAff(sl.X).add(bfp.affOf(sl.High), -1)
-			if d.k == 0 && len(d.t) == 1 {
-				for x, cf := range d.t {
-					if lk, isLen := x.(lenKey); isLen && cf == 1 && strings.Contains(sx(lk.v), "closed") {
-						ok = true
-					}
-				}
-			}
-		}
-		c.check("C10.order", shortFn(proc), "open list truncated to len(open) − len(closed)", ok, "no store open = open[0:len(open)-len(closed)]")
-	}
-	{
-		// Close removes exactly index i: copy(open[i:], open[i+1:]) then drop the last
-		okCopy, okDrop := false, false
-		for _, ci := range allCalls(cls) {
-			if calleeName(ci) == "builtin:copy" {
-				d, s := sx(ci.Common().Args[0]), sx(ci.Common().Args[1])
-				if strings.HasPrefix(d, "*&$s.open[phi[") && strings.HasPrefix(s, "*&$s.open[(1+phi[") {
-					okCopy = true
-				}
-			}
-		}
-		for _, st := range fieldStores(cls, "open") {
-			if sx(st.Val) == "*&$s.open[:(len(*&$s.open)-1)]" {
-				okDrop = true
-			}
-		}
-		c.check("C10.order", shortFn(cls), "removes exactly the matched element (shift left from i, drop the last slot)", okCopy && okDrop, fmt.Sprintf("shift=%v drop=%v", okCopy, okDrop))
-	}
-
-	// ---- rejections leave the open list and blackout state alone
-	for _, b := range proc.Blocks {
-		r, ok := b.Instrs[len(b.Instrs)-1].(*ssa.Return)
-		if !ok || len(r.Results) != 2 {
-			continue
-		}
-		e := sx(r.Results[1])
-		if !(strings.HasSuffix(e, "ErrSCTE35UnsupportedSpliceCommand") || strings.HasSuffix(e, "ErrSCTE35DuplicateDescriptor")) {
-			continue
-		}
-		bad := ""
-		for _, f := range []string{"open", "inBlackout", "blackoutIdx"} {
-			for _, st := range fieldStores(proc, f) {
-				if blockReaches(st.Block(), b) {
-					bad = "store to " + f + " at " + c.P.Pos(st.Pos()) + " can precede this return"
-				}
-			}
-		}
-		name := e[strings.LastIndex(e, "Err"):]
-		c.check("C10.reject", shortFn(proc), fmt.Sprintf("return %s [block %d]: nothing stored to open/inBlackout/blackoutIdx before it", name, b.Index), bad == "", bad)
-	}
-	// the no-PTS test is the first thing the function does
-	{
-		first := proc.Blocks[0]
-		ifi, ok := first.Instrs[len(first.Instrs)-1].(*ssa.If)
-		okFirst := ok && strings.Contains(sx(ifi.Cond), ".HasPTS(") && strings.Contains(sx(ifi.Cond), "$desc")
-		if okFirst {
-			t := first.Succs[0]
-			if strings.HasPrefix(sx(ifi.Cond), "!") {
-				// !HasPTS → then-branch returns
-			}
-			r, isRet := t.Instrs[len(t.Instrs)-1].(*ssa.Return)
-			if !isRet {
-				t = first.Succs[1]
-				r, isRet = t.Instrs[len(t.Instrs)-1].(*ssa.Return)
-			}
-			okFirst = isRet && strings.HasSuffix(sx(r.Results[1]), "ErrSCTE35UnsupportedSpliceCommand")
-		}
-		c.check("C10.reject", shortFn(proc), "a descriptor whose signal has no PTS is rejected before anything else happens", okFirst, "the HasPTS test is not the entry test")
-	}
+	// ---- step semantics from seeded abstract states (c10sem.go)
+	c.runStateSemantics()
 
 	// ---- blackout invariant maintenance (induction step per method)
 	spec := fiSpec{S: "open", I: "blackoutIdx", B: "inBlackout"}
@@ -272,28 +115,6 @@ func runC10(c *Checker) {
 		}
 		c.check("C10.invariant", "scte35:(*state)", "only ProcessDescriptor and Close store open/blackoutIdx/inBlackout, and no library code calls back into the tracker", bad == "", bad)
 	}
-	for _, fn := range []*ssa.Function{proc, cls, opn} {
-		for _, b := range fn.Blocks {
-			for _, ins := range b.Instrs {
-				u, ok := ins.(*ssa.UnOp)
-				if !ok || !isFieldLoad(u, "blackoutIdx") {
-					continue
-				}
-				// skip loads that only feed a store to blackoutIdx (idx-- / idx = …) or a re-validation test
-				guarded := false
-				for x := b; x != nil && x.Idom() != nil; x = x.Idom() {
-					id := x.Idom()
-					if ifi, ok := id.Instrs[len(id.Instrs)-1].(*ssa.If); ok && len(x.Preds) == 1 && id.Succs[0] == x && mentionsField(ifi.Cond, "inBlackout") {
-						guarded = true
-					}
-				}
-				c.check("C10.invariant", shortFn(fn), fmt.Sprintf("use of blackoutIdx [block %d] is dominated by a test of inBlackout", b.Index), guarded, "blackoutIdx read at "+c.P.Pos(u.Pos())+" without testing inBlackout")
-			}
-		}
-	}
-
-	// ---- type dispatch
-	c.checkStateDispatch(proc)
 
 	// ---- duplicate detection over the received ring
 	c.runStateDuplicates()
